@@ -1,6 +1,7 @@
 package main
 
 import (
+	"errors"
 	"fmt"
 	"net/http"
 	"net/http/httptest"
@@ -19,6 +20,8 @@ type rateCfg struct {
 	cap   int
 	level string
 	extr  string
+	// rates that a per-request rate extractor answers for some sources (the ExtractRates option); others get the defaults
+	srcRates map[string][]M
 }
 
 func parseRateCfg(c M) rateCfg {
@@ -34,12 +37,38 @@ func parseRateCfg(c M) rateCfg {
 	for _, r := range list(c, "rates") {
 		rc.rates = append(rc.rates, r.(M))
 	}
+	if sr, ok := c["srcrates"].(M); ok {
+		rc.srcRates = map[string][]M{}
+		for src, l := range sr {
+			for _, r := range l.([]any) {
+				rc.srcRates[src] = append(rc.srcRates[src], r.(M))
+			}
+		}
+	}
 	return rc
 }
 
-func (rc rateCfg) rateSet() *ratelimit.RateSet {
+func (rc rateCfg) rateSet() *ratelimit.RateSet { return rc.rateSetOf(rc.rates) }
+
+// ttlSec is how long (whole seconds) a source's state is remembered after its last request: ten times the longest period of
+// the rates that apply to it, plus one second.
+func (rc rateCfg) ttlSec(src string) int {
+	rates := rc.rates
+	if r, ok := rc.srcRates[src]; ok {
+		rates = r
+	}
+	var maxP time.Duration
+	for _, r := range rates {
+		if p := time.Duration(num(r, "p")) * rc.tick; p > maxP {
+			maxP = p
+		}
+	}
+	return int(maxP/time.Second)*10 + 1
+}
+
+func (rc rateCfg) rateSetOf(rates []M) *ratelimit.RateSet {
 	rs := ratelimit.NewRateSet()
-	for _, r := range rc.rates {
+	for _, r := range rates {
 		if err := rs.Add(time.Duration(num(r, "p"))*rc.tick, int64(num(r, "a")), int64(num(r, "b"))); err != nil {
 			fatal("rateset: %v", err)
 		}
@@ -106,7 +135,16 @@ func newRateSubject(rc rateCfg) *rateSubject {
 		})
 	}
 	h := http.HandlerFunc(func(w http.ResponseWriter, _ *http.Request) { s.invoked++; w.WriteHeader(200) })
-	tl, err := ratelimit.New(h, ex, rc.rateSet(), ratelimit.Capacity(rc.cap))
+	opts := []ratelimit.TokenLimiterOption{ratelimit.Capacity(rc.cap)}
+	if len(rc.srcRates) > 0 {
+		opts = append(opts, ratelimit.ExtractRates(ratelimit.RateExtractorFunc(func(req *http.Request) (*ratelimit.RateSet, error) {
+			if r, ok := rc.srcRates[req.Header.Get("X-Src")]; ok {
+				return rc.rateSetOf(r), nil
+			}
+			return nil, errors.New("no special rates for this source") // the limiter falls back to its default rates
+		})))
+	}
+	tl, err := ratelimit.New(h, ex, rc.rateSet(), opts...)
 	if err != nil {
 		fatal("ratelimit.New: %v", err)
 	}
@@ -216,7 +254,7 @@ func replayFlat(rc rateCfg, flat []rstep, keep func(i int, st rstep) bool, forge
 // forgotten. Returns for every source the positions at which it is forgotten, and the position of the first tie
 // (several candidates equally near to expiry: the property does not say which one), or -1.
 func evictions(rc rateCfg, flat []rstep) (map[string]map[int]bool, int) {
-	last := map[string]int{} // source -> second of its last request
+	last := map[string]int{} // source -> second at which its entry expires (last request + lifetime of its rates)
 	out := map[string]map[int]bool{}
 	now, tie := 0, -1
 	for i, st := range flat {
@@ -227,7 +265,7 @@ func evictions(rc rateCfg, flat []rstep) (map[string]map[int]bool, int) {
 		if st.src == "" {
 			continue
 		}
-		sec := now / rc.tps
+		sec := now/rc.tps + rc.ttlSec(st.src) // the second at which this request's entry expires
 		if _, ok := last[st.src]; !ok && len(last) >= rc.cap {
 			victim, min, n := "", 1<<62, 0
 			for k, v := range last {
